@@ -11,7 +11,7 @@ use tevec::prelude::{
 };
 use tvh::backends::{make_deque, strided_parent, with_backend, Backend, OutKind, ViewFn, VIEW_STEPS};
 use tvh::conv::{materialize, normalize, OutElem};
-use tvh::engine::{fail, main_for, sub, sub_enum, CheckResult, Fail, Obs, Property, Tier};
+use tvh::engine::{canary, fail, main_for, sub, sub_enum, CheckResult, Fail, Obs, Property, Tier};
 use tvh::gen::*;
 use tvh::model::{Stat, Stat2};
 use tvh::rollcheck::{eval2_mat, eval_plain_mat, eval_valid_mat};
@@ -543,7 +543,7 @@ fn main() {
     ));
     let f64_only: &'static [InT] = &[InT::F64];
     let f64_out: &'static [OutT] = &[OutT::F64];
-    p.add(sub(
+    p.add(canary(sub(
         "matrix:ndarray_out_views",
         12000,
         400000,
@@ -554,7 +554,7 @@ fn main() {
             })
         },
         matrix_nd_out_views,
-    ));
+    )));
     let plain_ins: &'static [InT] = &[InT::F64, InT::I32];
     p.add(sub(
         "matrix:rolling_plain",
